@@ -169,7 +169,7 @@ def flatRedirects : List Redir → String → Bool → List Atom
      | .heredoc quoted content => if !quoted then [.text false (some content) cwd remote] else []
      | .redirect op tgt =>
        match tgt with
-       | some t => flatWord t cwd remote ++ (if remote then [] else [.redir op (wordValue t) cwd])
+       | some t => flatWord t cwd remote ++ (if remote || Py.startsWith t.value "&" then [] else [.redir op (wordValue t) cwd])
        | none => if remote then [] else [.redir op "" cwd]
      | .other _ => [])
     ++ flatRedirects rs cwd remote
